@@ -17,13 +17,13 @@ def probe(dictionary, k, with_user, wd):
     try:
         if not s.up:
             return ["the server does not accept connections"]
-        st, r = s.call("GetCandidates", {"input": "くるまで"}, timeout=3)
+        st, r = s.call("GetCandidates", {"input": "くるまで"}, timeout=10)
         if st != "ok" or not r.get("candidates"):
             failed.append(f"GetCandidates is not answered within 3 s ({st})")
             return failed
-        st2, _ = s.call("UpdateFrequency", {"session_id": r["session_id"], "candidate_id": "0"}, timeout=3)
-        st3, _ = s.call("RegisterWord", {"kind": "CommonNoun", "reading": "あいう", "word": "亜以宇"}, timeout=3)
-        ok, d = s.quiesce(3.0)
+        st2, _ = s.call("UpdateFrequency", {"session_id": r["session_id"], "candidate_id": "0"}, timeout=10)
+        st3, _ = s.call("RegisterWord", {"kind": "CommonNoun", "reading": "あいう", "word": "亜以宇"}, timeout=10)
+        ok, d = s.quiesce(10.0)
         if st2 != "ok":
             failed.append("UpdateFrequency is not answered")
         elif not isinstance(d, dict) or not d.get("frequencies"):
@@ -31,15 +31,15 @@ def probe(dictionary, k, with_user, wd):
         if st3 != "ok" or not ok:
             failed.append("the registration is never applied (dictionary updater not running)")
         else:
-            st4, r4 = s.call("GetCandidates", {"input": "あいう"}, timeout=3)
+            st4, r4 = s.call("GetCandidates", {"input": "あいう"}, timeout=10)
             if st4 != "ok" or "亜以宇" not in [c["candidate"] for c in r4["candidates"]]:
                 failed.append("the registered word does not become convertible")
         if with_user:
             t0 = time.time()
-            while time.time() - t0 < 5 and not os.path.exists(os.path.join(ud, "user.dic")):
+            while time.time() - t0 < 12 and not (os.path.exists(os.path.join(ud, "user.dic")) and os.path.exists(os.path.join(ud, "frequency.bin"))):
                 time.sleep(0.05)
             if not os.path.exists(os.path.join(ud, "user.dic")) or not os.path.exists(os.path.join(ud, "frequency.bin")):
-                failed.append("the periodic save does not happen (no user.dic / frequency.bin after 5 s)")
+                failed.append("the periodic save does not happen (no user.dic / frequency.bin after 12 s)")
     finally:
         s.stop()
     return failed
